@@ -445,8 +445,28 @@ class Engine:
         elif f[0] == 'agg' and isinstance(f[1], str) and f[1].startswith('closure:'):
             body = self.facts.body(f[1][len('closure:'):])
             env = f
+        if body is None and f[0] == 'fn':
+            # an external function with a summary (TimeSpec::from, u64::from ...) used as a callback
+            nm = mir.callee_name(f[1])
+            summ = self.summaries.get(nm) or self.summaries.get(f[1].get('path'))
+            if summ is not None:
+                r = summ(self, st, fr, list(args), f[1], None)
+                if r is None:
+                    return None
+                if isinstance(r, list):
+                    return [(a_[0], list(a_[1]), a_[2] if len(a_) > 2 else None, a_[3] if len(a_) > 3 else None) for a_ in r]
+                return [(r, [], None, None)]
         if body is None or self._apply_depth > 3:
             return None
+        if f[0] == 'fn' and self.inline_filter is not None and not self.inline_filter(body):
+            # a function the analysis keeps opaque, passed as a callback: an ordinary opaque call
+            name = body.path
+            n = len(st.effects)
+            pointees = [self.load(st, a[1]) if a[0] == 'ref' else None for a in args]
+            eff = list(st.effects) + [{'kind': 'call', 'callee': name, 'declared': name, 'args': list(args), 'site': (fr.body.path, fr.bb, fr.body.where(fr.bb)),
+                                       'tracing': False, 'fn': f[1], 'pointees': pointees}]
+            self.opaque.add(name)
+            return [(T('call', name, n, *args), [], eff, None)]
         call_args = list(args)
         store = dict(st.store)
         if env is not None:
